@@ -380,6 +380,7 @@ pub fn c09_pins() -> Vec<(&'static str, Case)> {
         ("sibling_call_literals", mk("char *p;\nunsigned char r;\nchar g(char *s) { p = s; return 1; }\nchar h(char *a, char *b) { p = a; p = b; return 1; }\nvoid main() { r = g(\"aa\") + g(\"bb\"); h(\"cc\", (\"dd\")); }\n", vec![("cctmp0", vec![97, 97, 0]), ("cctmp1", vec![98, 98, 0]), ("cctmp2", vec![99, 99, 0]), ("cctmp3", vec![100, 100, 0])], vec![])),
         ("escaped_backslash_then_escaped_quote", mk("#if 0\nconst char d[] = \"\\\\\\\"/*\";\n#endif\nconst char s0[] = \"a\\\\\\\"b\";\nconst char s1[] = \"z\";\nvoid main() {}\n", vec![("s0", vec![97, 92, 34, 98, 0]), ("s1", vec![122, 0])], vec![])),
         ("macro_name_in_character_constant", mk("#define a 5\n#define Q 'a'\nconst char k0 = 'a';\nconst char k1 = Q;\nvoid main() {}\n", vec![], vec![("k0", 97), ("k1", 97)])),
+        ("macro_parameter_in_character_constant", mk("#define PICK(x) ((x) ? 'x' : 'y')\nconst char k0 = PICK(1);\nconst char k1 = PICK(0);\nvoid main() {}\n", vec![], vec![("k0", 120), ("k1", 121)])),
         ("formfeed_escape", mk("const char s0[] = \"a\\fb\";\nconst char ck = '\\f';\nvoid main() {}\n", vec![("s0", vec![97, 12, 98, 0])], vec![("ck", 12)])),
     ]
 }
